@@ -153,6 +153,7 @@ __strpdt_std(const char *str, char **ep)
 	struct dt_dt_s res = {DT_UNK};
 	struct strpdt_s d = {0};
 	const char *sp;
+	const char *sv;
 
 	if ((sp = str) == NULL) {
 		goto out;
@@ -200,16 +201,22 @@ try_time:
 		sp = str;
 		goto out;
 	} else if ((sp++, d.st.m = strtoi_lim(sp, &sp, 0, 59)) < 0) {
+		/* not a time after all, leave all of it */
 		d.st.m = 0;
+		sp = str;
 		goto out;
 	} else if (*sp != ':') {
 		goto eval_time;
-	} else if ((sp++, d.st.s = strtoi_lim(sp, &sp, 0, 60)) < 0) {
+	} else if ((sv = sp++, d.st.s = strtoi_lim(sp, &sp, 0, 60)) < 0) {
+		/* leave the colon and what follows */
 		d.st.s = 0;
+		sp = sv;
 	} else if (*sp != '.') {
 		goto eval_time;
-	} else if ((sp++, d.st.ns = strtoi_lim(sp, &sp, 0, 999999999)) < 0) {
+	} else if ((sv = sp++, d.st.ns = strtoi_lim(sp, &sp, 0, 999999999)) < 0) {
+		/* leave the dot and what follows */
 		d.st.ns = 0;
+		sp = sv;
 		goto eval_time;
 	}
 eval_time:
